@@ -121,8 +121,8 @@ fn base_profile() -> Profile {
     p.arrays = false;
     p.lambdas = false;
     p.let_ = false;
-    p.at = false;
-    p.spill = false;
+    p.at = true; // `@name`: a rename has to descend into the operand
+    p.spill = true;
     p.full_ranges = false;
     p.strings = false;
     p.empty_args = false;
@@ -713,8 +713,8 @@ pub fn run(ctx: &Ctx) {
         }
     }
     let (cases, depth, ops) = match ctx.tier {
-        Tier::Quick => (6000, 2, 6),
-        Tier::Thorough => (120000, 3, 16),
+        Tier::Quick => (30000, 2, 6),
+        Tier::Thorough => (400000, 3, 16),
     };
     let enc = |c: &Case| serde_json::to_value(c).unwrap_or(Value::Null);
     ctx.campaign("name-ops", cases, || case_strategy(depth, ops, avoid.clone()), check, enc);
